@@ -1,21 +1,28 @@
 #!/bin/bash
-# usage: tools_mutant_matrix.sh [id-regex] [outfile]
+# usage: [MUT_REPO=<scratch worktree>] tools_mutant_matrix.sh [id-regex] [outfile]
+# (default target is /repo itself; a scratch worktree of the same HEAD can be used while /repo is busy - the checks then run with SX_REPO pointing at it
+#  and write their evidence to a scratch directory)
 # run each seeded change in seeded/MATRIX.txt (id, checks expected to report it) : apply to /repo, run the quick check, revert.
 cd /verif
+repo=${MUT_REPO:-/repo}
 pat=${1:-.}
 out=${2:-/verif/seeded/RESULTS.txt}
 : > $out
 while read id checks; do
   for chk in $checks; do
-    cd /repo; git diff --quiet || { echo "REPO DIRTY" >> $out; exit 1; }
+    cd $repo; git diff --quiet || { echo "REPO DIRTY" >> $out; exit 1; }
     git apply /verif/seeded/$id/patch.diff || { echo "$id $chk APPLY-FAILED" >> $out; continue; }
     cd /verif
-    res=$(timeout 1500 ./check $chk --tier quick 2>&1 | grep -E "^VIOLATION|^INCONCLUSIVE|^HARNESS|^KNOWN" | head -1 | cut -c1-160)
+    if [ $repo = /repo ]; then
+      res=$(timeout 1500 ./check $chk --tier quick 2>&1 | grep -E "^VIOLATION|^INCONCLUSIVE|^HARNESS|^KNOWN" | head -1 | cut -c1-160)
+    else
+      res=$(SX_REPO=$repo VERIF_EVIDENCE_DIR=/tmp/ev-matrix timeout 1500 ./check $chk --tier quick 2>&1 | grep -E "^VIOLATION|^INCONCLUSIVE|^HARNESS|^KNOWN" | head -1 | cut -c1-160)
+    fi
     rc=$?
-    git -C /repo checkout -- .
+    git -C $repo checkout -- .
     if echo "$res" | grep -q "^VIOLATION"; then verdict=CAUGHT; else verdict=MISSED; fi
     echo "$id $chk $verdict :: $res" >> $out
   done
 done < <(grep -E "^${pat}" /verif/seeded/MATRIX.txt)
-git -C /verif checkout -- evidence 2>/dev/null
+[ $repo = /repo ] && git -C /verif checkout -- evidence 2>/dev/null
 echo DONE >> $out
